@@ -107,12 +107,15 @@ Definition parse_mmap_resource (d : bytes) (offset : Z) (bo : byteorder) : resul
   let! vs := read_layout bo res_layout d (offset + 4) in
   Ok (Build_mmap_res id (getv vs 0) (getv vs 1) (getv vs 2) (getv vs 3) (getv vs 4)).
 
-Fixpoint parse_mmap_entries (n : nat) (d : bytes) (offset : Z) (bo : byteorder) : result (list mmap_res) :=
-  match n with
-  | O => Ok []
-  | S m =>
+(* for _ in range(0, usedResourceCount): the count is an input field, so the loop is modelled with a
+   Z counter and fuel |d|+1 (each iteration reads fresh bytes and fails when they run out) *)
+Fixpoint parse_mmap_entries (fuel : nat) (n : Z) (d : bytes) (offset : Z) (bo : byteorder) : result (list mmap_res) :=
+  if n <=? 0 then Ok [] else
+  match fuel with
+  | O => OutOfFuel
+  | S f =>
     let! r := parse_mmap_resource d offset bo in
-    let! rest := parse_mmap_entries m d (offset + 20) bo in
+    let! rest := parse_mmap_entries f (n - 1) d (offset + 20) bo in
     Ok (r :: rest)
   end.
 
@@ -121,7 +124,7 @@ Definition parse_mmap (d : bytes) (bo : byteorder) : result (mmap_hdr * list mma
   let h := slice d 0 24 in
   if negb (Nat.eqb (length h) 24) then Err EStruct else
   let! vs := read_layout bo hdr_layout h 0 in
-  let! rs := parse_mmap_entries (Z.to_nat (getv vs 3)) d 24 bo in
+  let! rs := parse_mmap_entries (S (length d)) (getv vs 3) d 24 bo in
   Ok (Build_mmap_hdr (getv vs 0) (getv vs 1) (getv vs 2) (getv vs 3) (getv vs 4) (getv vs 5) (getv vs 6), rs).
 
 (* imap.py: struct.unpack(bo+"iiihhii", fdata), first six values *)
